@@ -122,3 +122,13 @@ func init() {
 		LevelText:   "exploration with exhaustive enumeration of the small graphs: the real encoder is compared with an independent recursive renderer for every enumerated graph; termination on cycles is observed (a non-terminating request hits the watchdog and is reported inconclusive with a goroutine dump)",
 		LevelNote:   "trusted base: reference renderer written from the property text, SimBus, net/http/httptest recorder"})
 }
+
+func init() {
+	add(&Prop{ID: "C14", Level: "exploration", Shards: 16, CrashIsViol: false,
+		Technique:   "runtime monitoring: always-on subject hygiene assertion at the messaging boundary plus a reference request decoder, over hostile WebSocket method strings and HTTP targets sent through real parsing (gorilla frames, net/http request-line parser)",
+		Rule:        "method strings / request targets assembled from hostile atoms (control bytes, space, CR LF, wildcards, empty tokens, leading/trailing dots, percent-encodings of each, double encodings, non-ASCII, invalid UTF-8, 5 kB tokens, {cid}), sent as real frames and as raw HTTP request lines for GET/HEAD/POST/PUT/DELETE/PATCH with three apiPath prefixes and method mappings on/off; every subject must be hygienic and equal the reference decoder's type.name[.method]; inputs the reference classifies invalid must produce no service traffic and system.invalidRequest / 404 (405 for unmapped methods); service-supplied invalid rids must not be followed; non-trivial = input that passed at least the first validation stage (contains a dot / lies under the apiPath); distinct = generator index (inputs are generated once each)",
+		Assumptions: []string{"where net/url has already percent-decoded the path before the handler sees it, either reading (decoded once or twice) is accepted for the equality half; the hygiene half is unconditional", "requests net/http's own parser rejects never reach the handler and are not counted"},
+		DesignRef:   "DESIGN.md §4 C14",
+		LevelText:   "exploration: generated hostile inputs through the real parsers; the boundary assertion sees every subject of every run of every check",
+		LevelNote:   "trusted base: reference decoder written from the property text and protocol documents"})
+}
